@@ -28,9 +28,11 @@ def anchor_files(prop: str):
 def run_rules(mod, ctx, prop):
     """the property's own rules, then the rules common to all properties (state shared between calls) on its anchor files"""
     out = mod.run(ctx)
-    from rules.common import check_declarations, check_shared_state
+    from rules.common import check_declarations, check_effects, check_shared_state, check_truthiness
     check_shared_state(ctx, anchor_files(prop))
     check_declarations(ctx, anchor_files(prop))
+    check_effects(ctx, anchor_files(prop))
+    check_truthiness(ctx, anchor_files(prop))
     return out
 
 
